@@ -29,7 +29,12 @@ def main():
         if pid not in CLAIMS:
             continue
         cat, text, note, ref = CLAIMS[pid]
-        mod = importlib.import_module(f"cv.props.{pid.lower()}")
+        import ast
+        tree = ast.parse(open(os.path.join(ROOT, "cv", "props", f"{pid.lower()}.py")).read())
+        tech = "property-based testing"
+        for node in tree.body:
+            if isinstance(node, ast.Assign) and getattr(node.targets[0], "id", None) == "TECHNIQUE":
+                tech = ast.literal_eval(node.value)
         checks.append({
             "property_id": pid,
             "quick_cmd": f"./check {pid} --tier quick",
@@ -39,7 +44,7 @@ def main():
             "engine": "cv",
             "level_claimed": {"category": cat, "text": text, "design_ref": ref},
             "level_note": note,
-            "technique": getattr(mod, "TECHNIQUE", "property-based testing"),
+            "technique": tech,
         })
     na = []
     for pid in ALL:
